@@ -140,6 +140,11 @@ class GateReplacer(Visitor):
         new_parameters = {
             name: self.visit(param) for name, param in gate.parameters.items()
         }
+        # The arguments have changed: check them against the kinds the
+        # called gate declares, as building the statement would have.
+        for param in gate.gate_def.parameters:
+            if param.name in new_parameters:
+                param.validate(new_parameters[param.name])
         new_gate = GateStatement(gate.gate_def, new_parameters)
         return replace_gate(new_gate, self.macros)
 
